@@ -281,8 +281,11 @@ def toBinary (env : Env) (f : File) (ext : List Encryptor) (ephs : List Nat) : E
   let body ← Bf3.toBinary env.C f.comps header.length f.key
   pure (header ++ body, ephs')
 
-/-- `Bec2File.read_file` after the text envelope -/
-def readBinary (env : Env) (ext : List Encryptor) (chk : Bool) (bin : Bytes) : Except Err File := do
+/-- `Bec2File.read_file` after the text envelope. The file object is built by the ordinary constructor, so a recovered
+session key that is *empty* (an auth block with a genuine container around an empty payload - possible only for the
+holder of the wrapping key) is replaced by fresh random bytes `ρ` like a key that was never given; with a non-empty body
+such a file is then rejected by the MAC check, with an empty body it is accepted. -/
+def readBinary (env : Env) (ext : List Encryptor) (chk : Bool) (bin : Bytes) (ρ : Bytes := []) : Except Err File := do
   let (sig, r) ← take Gen.BEC2_FILE_SIG.length bin
   if sig != Gen.BEC2_FILE_SIG then throw Err.formatBec2
   let (blocks, common, r', used) ← unpackBlocks env ext (r.length + 1) r [] none 0
@@ -290,6 +293,6 @@ def readBinary (env : Env) (ext : List Encryptor) (chk : Bool) (bin : Bytes) : E
   | none => throw Err.formatBec2
   | some sk =>
     let comps ← Bf3.fromBinary env.C chk sk (Gen.BEC2_FILE_SIG.length + used) r'
-    pure { comps := comps, blocks := blocksDict [] blocks, key := sk }
+    pure { comps := comps, blocks := blocksDict [] blocks, key := (initKey (some sk) ρ).1 }
 
 end Bec2Verif.Bec2
